@@ -1,5 +1,6 @@
 //! mrl-harness: drives the real mrecordlog (built from /repo's working tree with
 //! --cfg mrecordlog_verif) and records traces for validation against the TLA+ specification.
+mod aimed;
 mod alloc;
 mod crash;
 mod damage;
@@ -174,7 +175,11 @@ pub fn load_scripts(args: &Args) -> Vec<Script> {
             let count: u64 = count.parse().unwrap();
             for idx in 0..count {
                 for policy in &policies {
-                    let mut script = gen::generate(profile, seed * 1_000_003 + idx, policy);
+                    let mut script = if aimed::is_aimed(profile) {
+                        aimed::generate(profile, seed * 1_000_003 + idx, policy)
+                    } else {
+                        gen::generate(profile, seed * 1_000_003 + idx, policy)
+                    };
                     if policies.len() > 1 {
                         script.name = format!("{}@{}", script.name, policy);
                     }
